@@ -46,13 +46,16 @@ def reference(s):
 
 def excluded(s):
     """a special sequence that becomes blank on an otherwise blank line (C05's subject)"""
+    def blank(t):
+        # "blank" is the filter's notion (regular expression \\s: every Unicode space)
+        return all(c.isspace() or c in '&~' for c in t)
     for line in s.split('\n'):
-        if line.strip(' \t&~') == '' and ('&' in line or '~' in line):
+        if blank(line) and ('&' in line or '~' in line):
             return True
         t = line
         for k in ('\\\\', '\\,'):
             t = t.replace(k, '')
-        if t.strip(' \t&~') == '' and t != line:
+        if blank(t) and t != line:
             return True
     return False
 
@@ -72,6 +75,7 @@ def judge(doc, flat, twin=False):
 
 
 def items(tier, seed):
+    assert sketch.covers('PROSE', PARTS)
     out = []
     N = 3 if tier == 'quick' else 4
     for n in range(0, N + 1):
